@@ -77,7 +77,31 @@ def design_desc(draw):
     for j in range(draw(INT(0, 3))):
         subs.append({"name": names[draw(INT(0, 3))], "w": draw(INT(1, 4)), "src": PICK(draw, targets),
                      "dom": PICK(draw, doms), "anon": draw(BOOL), "inst": draw(BOOL), "mem": draw(INT(0, 2)) == 0})
+    for sub in subs:
+        if draw(INT(0, 2)) == 0:
+            kd, dom = "kd", sub["dom"]
+            mp = PICK(draw, [[[kd, "kx"]], [[kd, dom]], [[kd, dom], [dom, kd]], [[kd, dom], [dom, "kx"]], [[dom, kd]]])
+            if draw(BOOL):
+                mp = list(reversed(mp))
+            sub["keeper"] = {"defines": kd, "map": mp}
     return {"prog": prog, "doms": doms, "subs": subs, "port_targets": sorted(set(PICK(draw, targets) for _ in range(2)))}
+
+
+def _known_renamer(part, case, mm):
+    # exactly this pattern: the second conversion of the same object differs, and the design holds a component that keeps
+    # its ClockDomain object under a DomainRenamer whose map sends a name to another of its source names
+    desc = case[1]
+    return (part == "rtlil" and mm.kind == "same-object-converted-twice-differs" and
+            any(s.get("keeper") and renamer_revisits(s["keeper"]["map"]) for s in desc["subs"]))
+
+
+KNOWN = {"renamer-renames-kept-clock-domain": _known_renamer}
+
+
+def renamer_revisits(mp):
+    """A map in which some target name is also a source name (swap, chain): applying it twice differs from once."""
+    srcs = {a for a, _ in mp}
+    return any(b in srcs for _, b in mp)
 
 
 @st.composite
@@ -94,21 +118,30 @@ def rtlil_body(ctx, batch):
         except ChildFailed as e:
             raise Mismatch("conversion-failed-in-child", hashseed=hs, stderr=str(e))
     base = results[seeds[0]]
-    for i, desc in enumerate(batch):
+
+    def judge(ctx, item):
+        i, desc = item
         for hs in seeds:
             h = results[hs][i]
             if h[0] != h[2]:
                 raise Mismatch("two-fresh-builds-differ-in-one-interpreter", hashseed=hs, design=desc)
-            if h[0] != h[1]:
-                raise Mismatch("same-object-converted-twice-differs", hashseed=hs, design=desc)
             if h[0] != base[i][0]:
                 raise Mismatch("rtlil-depends-on-string-hash-seed", hashseeds=[seeds[0], hs], design=desc)
+        for hs in seeds:
+            h = results[hs][i]
+            if h[0] != h[1]:
+                raise Mismatch("same-object-converted-twice-differs", hashseed=hs, design=desc)
+    for i, desc in enumerate(batch):
+        ctx.guarded(judge, [i, desc])     # a listed known finding is counted; the other designs of the batch are still judged
         keys = ["rtlil:design"]
         if len(desc["doms"]) >= 2: keys.append("rtlil:>=2-implicit-domains")
         if len({s["name"] for s in desc["subs"]}) < len(desc["subs"]): keys.append("rtlil:name-clash")
         if any(s["anon"] for s in desc["subs"]): keys.append("rtlil:anonymous-submodule")
         if any(s["inst"] for s in desc["subs"]): keys.append("rtlil:instance-with-clocksignal")
         if any(s["mem"] for s in desc["subs"]): keys.append("rtlil:memory")
+        if any(s.get("keeper") for s in desc["subs"]): keys.append("rtlil:renamer-around-kept-clock-domain")
+        if any(s.get("keeper") and renamer_revisits(s["keeper"]["map"]) for s in desc["subs"]):
+            keys.append("rtlil:renamer-map-revisits-a-name")
         ctx.note(desc, len(desc["doms"]) >= 2 or "rtlil:name-clash" in keys, *keys, evals=3 * len(seeds))
 
 
@@ -266,5 +299,6 @@ def parts(tier):
 
 
 REQUIRED = ["rtlil:design", "rtlil:>=2-implicit-domains", "rtlil:name-clash", "rtlil:anonymous-submodule",
-            "rtlil:instance-with-clocksignal", "rtlil:memory", "sim:history", "sim:partial-run-before-reset",
+            "rtlil:instance-with-clocksignal", "rtlil:memory", "rtlil:renamer-around-kept-clock-domain",
+            "rtlil:renamer-map-revisits-a-name", "sim:history", "sim:partial-run-before-reset",
             "sim:with-processes", "sim:memory-written", "plan:icestorm", "plan:trellis", "plan:apicula"]
